@@ -11,5 +11,5 @@ ASSUME TargetIgnoresFragUser({s \in Shapes : s.path \in {"segs", "lastparam"} /\
 Init == x \in Shapes
 Next == UNCHANGED x
 Spec == Init /\ [][Next]_x
-WellFormed == Len(Expected(x).target) >= 1 /\ Expected(x).oport \in {80, 443, 8080}
+WellFormed == Len(Expected(x).target) >= 1 /\ Expected(x).oport \in {0, 80, 443, 8080}
 =============================================================================
